@@ -11,20 +11,28 @@
 (***************************************************************************)
 EXTENDS SigUniverse, ModifiersCore
 
-CONSTANTS Names, MaxNamed, MaxSteps
+CONSTANTS Names, MaxNamed, MaxSteps, RangeForms
 Bases == Sigs(Names, {"args"}, {"kwargs"}, MaxNamed)
 NameSets == {S \in SUBSET Names : Cardinality(S) <= 2}
 Steps == {[kind |-> k, names |-> S] : k \in {"kwo", "po"}, S \in NameSets \ {{}}} \cup {[kind |-> "auto", names |-> S] : S \in NameSets}
+         \cup (IF RangeForms THEN {[kind |-> k, names |-> {n}] : k \in {"start", "end"}, n \in Names} ELSE {})
 
 VARIABLES base, sel, applied, phase
 vars == <<base, sel, applied, phase>>
 Init == base = <<>> /\ sel = Sel0 /\ applied = {} /\ phase = "base"
 PickBase == phase = "base" /\ \E b \in Bases : base' = b /\ phase' = "steps" /\ UNCHANGED <<sel, applied>>
-NewSel(s) ==
-  CASE s.kind = "kwo" -> [tag |-> "ok", po |-> sel.po, kwo |-> sel.kwo \cup s.names]
-    [] s.kind = "po"  -> [tag |-> "ok", po |-> sel.po \cup s.names, kwo |-> sel.kwo]
-    [] s.kind = "auto" -> LET a == AutoForm(Prepare(base, sel.po, sel.kwo).adv, s.names) IN
-                          IF a.tag = "ok" THEN [tag |-> "ok", po |-> sel.po, kwo |-> sel.kwo \cup a.kwo] ELSE a
+(* one application on top of the accumulated selection r; the range forms kwoargs(start=s) / posoargs(end=e) and autokwoargs read the *)
+(* CURRENTLY advertised signature *)
+NewSelOn(b, r, s) ==
+  CASE s.kind = "kwo" -> [tag |-> "ok", po |-> r.po, kwo |-> r.kwo \cup s.names]
+    [] s.kind = "po"  -> [tag |-> "ok", po |-> r.po \cup s.names, kwo |-> r.kwo]
+    [] s.kind = "auto" -> LET a == AutoForm(Prepare(b, r.po, r.kwo).adv, s.names) IN
+                          IF a.tag = "ok" THEN [tag |-> "ok", po |-> r.po, kwo |-> r.kwo \cup a.kwo] ELSE a
+    [] s.kind = "start" -> LET a == StartForm(Prepare(b, r.po, r.kwo).adv, CHOOSE n \in s.names : TRUE, {}) IN
+                          IF a.tag = "ok" THEN [tag |-> "ok", po |-> r.po, kwo |-> r.kwo \cup a.kwo] ELSE a
+    [] s.kind = "end" -> LET a == EndForm(Prepare(b, r.po, r.kwo).adv, CHOOSE n \in s.names : TRUE, {}) IN
+                          IF a.tag = "ok" THEN [tag |-> "ok", po |-> r.po \cup a.po, kwo |-> r.kwo] ELSE a
+NewSel(s) == NewSelOn(base, sel, s)
 ApplyStep(s) == /\ phase = "steps" /\ Cardinality(applied) < MaxSteps /\ s \notin applied
                 /\ LET n == NewSel(s) IN
                    /\ n.tag = "ok" /\ Prepare(base, n.po, n.kwo).tag = "ok"
@@ -40,5 +48,13 @@ Expected(S) ==
       kw == UNION {s.names : s \in {t \in S : t.kind = "kwo"}}
       au == UNION {PokDefaulted \ s.names : s \in {t \in S : t.kind = "auto"}}
   IN [po |-> po, kwo |-> kw \cup (au \ po)]
-OrderIndep == phase = "steps" => sel = Expected(applied)
+IsRange(t) == t.kind \in {"start", "end"}
+OrderIndep == (phase = "steps" /\ ~\E t \in applied : IsRange(t)) => sel = Expected(applied)
+(* with range forms the selection is no function of the steps resolved on the base (posoargs(end=c) over kwoargs(b) selects a and c), but it *)
+(* is still a function of the SET of steps: every admissible order of the same set reaches the same selection *)
+RECURSIVE Reach(_, _)
+Reach(b, S) ==
+  IF S = {} THEN {Sel0}
+  ELSE UNION {{[po |-> n.po, kwo |-> n.kwo] : n \in {m \in {NewSelOn(b, r, s) : r \in Reach(b, S \ {s})} : m.tag = "ok" /\ Prepare(b, m.po, m.kwo).tag = "ok"}} : s \in S}
+OrderIndepSet == phase = "steps" => Reach(base, applied) = {sel}
 =============================================================================
